@@ -1,7 +1,7 @@
 /-
 C05 — Charging-station power limits, strategy flex_window (Model/StratFlexWindow.lean).
-Proved for the whole step with LOAD_STRAT = "balanced"; the greedy/needy branch exceeds the station
-maximum in the code (witness below).
+Proved for the whole step with LOAD_STRAT = "balanced". The model is the code with the repairs fixes/FW1 … FW5;
+before FW1/FW2 the greedy/needy V2G pass exceeded the station maximum (example below shows the repaired value).
 -/
 import SpiceEv.Proofs.StratFlexWindow
 set_option linter.unusedSectionVars false
@@ -120,15 +120,14 @@ V2G charging pass together give exactly 2 kW. -/
 example : resLoads (FlexWindow.step idealOps (exEnv .balanced) exWorld5 (some true) []) =
     some ([2], [2]) := by decide +kernel
 
-/-- **Witness (greedy):** the same world under LOAD_STRAT greedy: `distribute_peak_shaving_v2g` charges
-with `vehicle.battery.load(max_power=avail_power)` without `clamp_power`; the 2 kW station carries
-8 kW (finding `C05:station_limit:flex_window:charge`). -/
+/-- The same world under LOAD_STRAT greedy after repair FW1 (`distribute_peak_shaving_v2g` charges through
+`clamp_power`): the 2 kW station carries 2 kW (before FW1: 8 kW, finding `C05:station_limit:flex_window:charge`). -/
 example : resLoads (FlexWindow.step idealOps (exEnv .greedy) exWorld5 (some true) []) =
-    some ([8], [8]) := by decide +kernel
+    some ([2], [2]) := by decide +kernel
 
 /-- Non-vacuity of the V2G call bound: outside a window the full V2G vehicle of `exWorld3` discharges ≈ 5 kW
 through its 11 kW station. -/
 example : resLoads (FlexWindow.step idealOps (exEnv .balanced) exWorld3 (some false) []) =
-    some ([-8063043909879 / 1099511627776], [-2621435 / 524288]) := by decide +kernel
+    some ([-1099509530619 / 274877906944], [-2621435 / 524288]) := by decide +kernel
 
 end SpiceEv
